@@ -5581,10 +5581,8 @@ oid_parsing_done:
         case ASN_UTF8STRING:
         case ASN_IA5STRING:
         case ASN_T61STRING:
-            /* coverity[unterminated_case] */
-            checkHiddenNull = PS_TRUE;
-        /* fall through */
         case ASN_BIT_STRING:
+            checkHiddenNull = PS_TRUE;
             stringOut = psMalloc(pool, llen + DN_NUM_TERMINATING_NULLS);
             if (stringOut == NULL)
             {
